@@ -54,6 +54,9 @@ Inductive op :=
 | OpECmpE (a b : nat)
 | OpECmpR (e s : nat) (i : Z)                               (* element vs reference, both ways round *)
 | OpCase (tc uc fc : nat) (rv : bool) (n : nat) (src : list Z)   (* emplace_back of one FixedSize/VaryingSize field from a source form *)
+| OpNop                                (* page mode / protect / unprotect: no effect on the library *)
+| OpConstOps (s t : nat)               (* the catalogue of const operations on s (compared with t) *)
+| OpThreads (s t n : nat)              (* the same from n threads *)
 | OpCmpVec (a b : nat)                 (* all six operators between two vectors *)
 | OpCmpRef (a : nat) (i : Z) (b : nat) (j : Z)   (* ... between element references a[i], b[j] *)
 | OpObserve (s : nat).
@@ -69,6 +72,7 @@ Inductive obs :=
 | OCmp (r : list bool)                             (* == != < <= > >= *)
 | OIter (r : list Z)
 | OCase (stored : list (list Z)) (moved : list Z)
+| OThreads (n : nat)
 | OElem (e : nat) (aid : Z) (bid : nat) (units : Z) (fields : list (Z * list (list Z)))
 | OENull (e : nat)
 | OEGone (e : nat)
@@ -398,6 +402,10 @@ Definition step (K : akind) (L : list param) (w : world) (o : op) : world :=
       emit w [OCmp (cmp_fl L (e_mem x) (e_fl x) (v_mem v) (vfl L v i));
               OCmp (cmp_fl L (v_mem v) (vfl L v i) (e_mem x) (e_fl x))]
   | OpCase tc uc fc rv n src => let '(st, mvd) := construct_case tc uc fc rv n src in emit w [OCase st mvd]
+  | OpNop => w
+  | OpConstOps s t =>
+      emit w [obs_vec L s w; OCmp (cmp_vecs L (getv w s) (getv w t)); OCmp (cmp_vecs L (getv w s) (getv w s))]
+  | OpThreads s t n => emit w [OThreads n]
   | OpCmpVec a b => emit w [OCmp (cmp_vecs L (getv w a) (getv w b))]
   | OpCmpRef a i b j => emit w [OCmp (cmp_refs L (getv w a) i (getv w b) j)]
   | OpObserve s => emit w [obs_vec L s w]
